@@ -122,12 +122,13 @@ def run_property(prop: Prop, tier: str, seed: int, replay: str | None = None) ->
     kinds = Counter()
     distinct = set()
     for case, obs in results:
-        kinds[prop.kind(case, obs)] += 1
-        if prop.nontrivial(case, obs):
-            distinct.add(json.dumps(case, sort_keys=True, default=str))
-        fails = list(prop.oracle(case, obs))
         if "harness_exception" in obs:
-            fails.append("harness-exception: " + obs["harness_exception"])
+            fails = ["harness-exception: " + obs["harness_exception"] + " | " + obs.get("tb", "")[-400:]]
+        else:
+            kinds[prop.kind(case, obs)] += 1
+            if prop.nontrivial(case, obs):
+                distinct.add(json.dumps(case, sort_keys=True, default=str))
+            fails = list(prop.oracle(case, obs))
         for f in fails:
             oracle_fail += 1
             key = prop.finding_key(case, obs, f)
